@@ -437,3 +437,59 @@ func ZZ_C11_nodeRemovalAfterFaults() {
 	nondet.Observe("pods", len(c.Pods))
 	nondet.Reach("C11.node-removal.after-fault", anyFault && converged())
 }
+
+// ZZ_C11_ersReadFaults: "if any single API call made during a reconcile fails ... none of the safety
+// properties (one pod per node, availability budget, ...) is violated" — the READ calls of a
+// replica-set sync (Get of the replica set and of the ExtendedDaemonSet, List of nodes, pods,
+// settings, old DaemonSet): any subset of them is rejected.  Three (thorough: four) eligible nodes
+// each run their Ready up-to-date pod, node0 possibly an outdated one; maxUnavailable is one.
+// Whatever was read or not, the sync deletes no up-to-date pod, at most one pod in total, creates
+// none (no node lacks one).  (Whether a rejected read surfaces as an error or as a requeue is not part
+// of the statement: the List of canary-labelled pods, for one, is only retried.)
+func ZZ_C11_ersReadFaults() {
+	nNodes := 3
+	if nondet.Thorough() {
+		nNodes = 4
+	}
+	c, ds, rsNew, _ := zzStore(nNodes)
+	ds.Status.ActiveReplicaSet = rsNew.Name
+	outdated0 := nondet.Bool("node0.outdated")
+	for i := 0; i < nNodes; i++ {
+		if i == 0 && outdated0 {
+			c.Pods = append(c.Pods, zzPod("old-"+zzNodeName(i), zzNodeName(i), zzOldRS, zzHashOld, 0, corev1.PodRunning, true, nondet.Base().Add(-2*time.Hour)))
+			continue
+		}
+		c.Pods = append(c.Pods, zzPod("new-"+zzNodeName(i), zzNodeName(i), zzRSName, zzHashNew, 0, corev1.PodRunning, true, nondet.Base().Add(-time.Hour)))
+	}
+	role := nondet.String("role", "active", "canary")
+	if role == "canary" {
+		ds.Spec.Strategy.Canary = &datadoghqv1alpha1.ExtendedDaemonSetSpecStrategyCanary{}
+		datadoghqv1alpha1.DefaultExtendedDaemonSetSpec(&ds.Spec, datadoghqv1alpha1.ExtendedDaemonSetSpecStrategyCanaryValidationModeAuto)
+		ds.Status.ActiveReplicaSet = zzOldRS
+		ds.Status.Canary = &datadoghqv1alpha1.ExtendedDaemonSetStatusCanary{ReplicaSet: rsNew.Name, Nodes: []string{zzNodeName(1)}}
+	}
+	c.InjectReadFaults = true
+	_, err := zzReconcile(zzReconciler(c, false), zzNS, rsNew.Name)
+	readFailed := false
+	for _, e := range c.Log {
+		if e.Failed && (e.Verb == "get" || e.Verb == "list") {
+			readFailed = true
+		}
+	}
+	deleted, deletedUpToDate := 0, 0
+	for _, e := range c.Log {
+		if e.Kind == "Pod" && e.Verb == "delete" {
+			deleted++
+			if e.Name != "old-"+zzNodeName(0) {
+				deletedUpToDate++
+			}
+		}
+	}
+	nondet.Assert("C11.ers-read.no-up-to-date-pod-deleted", deletedUpToDate == 0)
+	nondet.Assert("C11.ers-read.budget", deleted <= 1)
+	nondet.Assert("C11.ers-read.nothing-created", c.Count("create", "Pod") == 0)
+	nondet.Observe("error", err != nil)
+	nondet.Observe("deleted", deleted)
+	nondet.Reach("C11.ers-read.node-list-rejected", readFailed && err != nil)
+	nondet.Reach("C11.ers-read.fault-free-update", !readFailed && deleted == 1)
+}
